@@ -305,7 +305,7 @@ pub fn run(ctx: &mut Ctx) {
     rt.block_on(async {
         let mut nodes: Option<Vec<NodeX>> = None;
         let mut made = 0u64;
-        for case in ctx.cases(1_500, 400_000) {
+        for case in ctx.cases(10_000, 2_000_000) {
             if nodes.is_none() || made % 400 == 399 {
                 if let Some(old) = nodes.take() {
                     for mut n in old {
